@@ -101,9 +101,9 @@ func (c *conn) broken() bool {
 // Returns any error encountered while closing the stream.
 func (c *conn) terminate(err error) error {
 	c.cancel(err) // Cancel the server context
-	if tx := c.tx.Swap(chan txMsg(nil)); tx != nil && tx != chan txMsg(nil) {
-		close(tx.(chan txMsg))
-	}
+	// The transmit channel is detached but not closed: a concurrent send() may hold it,
+	// and sending on a closed channel panics. Both loops end with the context.
+	c.tx.Store(chan txMsg(nil))
 	return c.stream.Close() // Close the connection
 }
 
